@@ -276,8 +276,30 @@ def expGrpcX (code : Nat) (ri : Option Int) : VerdictI :=
     | some d => if d ≠ 0 then .throttle d else .retryable
     | none => .retryable
 
-/-- the specification on the full input space (hand-written): 2xx success; 429/502/503/504 retryable, all else
-permanent; 429/503 with a usable `Retry-After` → wait that long -/
+/-- the SPECIFICATION on the full input space, free of any implementation trait (hand-written): every 2xx is success
+whatever the body; 429/502/503/504 retryable, all else permanent; 429/503 with a usable `Retry-After` → wait exactly that
+long, for EVERY integer number of seconds -/
+def specHttpXPure (r : HttpResp) : VerdictI :=
+  if 200 ≤ r.status ∧ r.status ≤ 299 then .success
+  else if !specHttpRetryable r.status then .permanent
+  else if r.status = 429 ∨ r.status = 503 then
+    match r.ra with
+    | .seconds s => .throttle (s * nsPerSec)
+    | .date d => .throttle d
+    | _ => .retryable
+  else .retryable
+
+/-- where the exporter is claimed to follow `specHttpXPure`: a 2xx body that decodes (or is ignorable), and a delay-seconds value
+whose nanoseconds fit a `time.Duration` -/
+def HttpResp.inDomain (r : HttpResp) : Bool :=
+  (!(decide (200 ≤ r.status) && decide (r.status ≤ 299)) || r.body != .undecodable) &&
+  (match r.ra with
+   | .seconds s => decide (-9223372036 ≤ s) && decide (s ≤ 9223372036)
+   | _ => true)
+
+/-- the exporter's behaviour written in the notation of the spec tables — it carries the two implementation traits
+(64-bit wrap of delay-seconds, an undecodable 2xx body is a plain error); NOT a specification: a normal form used in proofs and,
+outside `inDomain`, as the recorded behaviour -/
 def specHttpX (r : HttpResp) : VerdictI :=
   if 200 ≤ r.status ∧ r.status ≤ 299 then (if r.body = .undecodable then .retryable else .success)
   else if !specHttpRetryable r.status then .permanent
